@@ -659,12 +659,24 @@ def run(ctx, anchors=None):
                     ctx.fail("R15.5", key, f.loc(n), "the result of fgets(%s, ...) is not tested" % btxt)
                     continue
                 # reads of buf reachable from the failing edge without an intervening write to buf
-                writes = [m for m in f.nodes() if m["k"] == "assign" and m["lhs"].get("k") == "index" and astq.estr(m["lhs"]["base"]) == btxt and astq.const_value(m["lhs"]["idx"]) == 0]
+                def same_buf(a_):
+                    # the same array object, not merely the same name (block scopes may re-use a name)
+                    while a_ is not None and a_.get("k") in ("cast", "paren"):
+                        a_ = a_["e"]
+                    b_ = buf
+                    while b_ is not None and b_.get("k") in ("cast", "paren"):
+                        b_ = b_["e"]
+                    if a_ is None or b_ is None:
+                        return False
+                    if a_.get("k") == "ref" and b_.get("k") == "ref":
+                        return a_.get("d") == b_.get("d")
+                    return astq.estr(a_) == astq.estr(b_)
+                writes = [m for m in f.nodes() if m["k"] == "assign" and m["lhs"].get("k") == "index" and same_buf(m["lhs"]["base"]) and astq.const_value(m["lhs"]["idx"]) == 0]
                 wblocks = cfg.blocks_of_nodes(writes)
                 reach = cfg.reachable_from(fail_succ, removed_blocks=wblocks - {fail_succ}) if fail_succ not in wblocks else set()
                 reads = []
                 for m in f.nodes():
-                    if m["k"] == "call" and m is not n and m.get("n") in ("strlen", "strdup", "strcmp", "strncmp", "printf", "sscanf", "atoi") and any(astq.estr(a) == btxt for a in m["args"] if a):
+                    if m["k"] == "call" and m is not n and m.get("n") in ("strlen", "strdup", "strcmp", "strncmp", "printf", "sscanf", "atoi") and any(same_buf(a) for a in m["args"] if a):
                         p = cfg.position(m)
                         if p and p[0] in reach:
                             reads.append(m)
@@ -1514,7 +1526,7 @@ MUTANTS = [
     dict(name="free-new-memory", file="cliargs.h", find="delete long_options.back();", replace="free(long_options.back());", expect=["R15.2:dealloc=cliargs::~cliargs"]),
     dict(name="unbounded-flag-buffer", file="btcdeb.cpp", find="        } else if (j < sizeof(buf) - 1) {\n            buf[j++] = mod[i];\n        } else {", replace="        } else if (true) {\n            buf[j++] = mod[i];\n        } else {", expect=["R15.4:array=buf@svf_parse_flags"]),
     dict(name="off-by-one-flag-buffer", file="btcdeb.cpp", find="} else if (j < sizeof(buf) - 1) {", replace="} else if (j < 128) {", expect=["R15.4:array=buf@svf_parse_flags"]),
-    dict(name="fgets-buffer-read-after-failure", file="btcdeb.cpp", find="            fprintf(stderr, \"warning: no input\\n\");\n            buf[0] = 0;", replace="            fprintf(stderr, \"warning: no input\\n\");", expect=["R15.5:fgets=main:buf"]),
+    dict(name="fgets-buffer-read-after-failure", file="btcdeb.cpp", find="        while (fgets(buf, 1024, stdin)) input += buf;", replace="        if (!fgets(buf, 1024, stdin)) fprintf(stderr, \"warning: nothing to read\\n\");\n        input += buf;", expect=["R15.5:fgets=main:buf"]),
     dict(name="vout-index-unchecked", file="instance.cpp", find="        if (txin_vout_index < 0 || (size_t)txin_vout_index >= txin->vout.size()) {", replace="        if (txin_vout_index < 0) {", expect=["R15.3:index=txin_vout_index"]),
     dict(name="select-index-unchecked", file="instance.cpp", find="            if (select_index >= tx->vin.size()) {", replace="            if (select_index >= 1000) {", expect=["R15.3:index=txin_index"]),
     dict(name="hash-length-unchecked", file="instance.cpp", find="            if (pushval.size() != 20) {\n                fprintf(stderr, \"unknown/non-standard script pub key (expected a 20 byte script hash", replace="            if (pushval.size() > 520) {\n                fprintf(stderr, \"unknown/non-standard script pub key (expected a 20 byte script hash",
